@@ -10,7 +10,8 @@ import itertools
 
 from lib import common
 
-THEOREMS_TIED = ["C20_client_framing", "C20_server_framing", "C20_end_to_end", "C20_exactly_once", "C20_no_echo"]
+THEOREMS_TIED = ["C20_client_framing", "C20_server_framing", "C20_end_to_end", "C20_exactly_once", "C20_no_echo",
+                 "C20_sql_announced_loadable", "C20_kv_announced_loadable", "C20_glue_announced_once", "C20_glue_accepted_announced"]
 
 
 class FakeEvent:
@@ -297,6 +298,32 @@ def _announce_events(rng, n):
     return evs
 
 
+def _model_tie(report, drv, backend, schedule, submitted, link, steps):
+    """the same schedule through the Lean model `Announce.run`: announcements (id, ephemeral, loadable at that instant) in
+    order, and which submissions were acknowledged as new"""
+    idx = {}
+    for ev, _ in submitted:
+        idx.setdefault(ev["id"], len(idx) + 1)
+    eph = {ev["id"]: 20000 <= ev["kind"] < 30000 for ev, _ in submitted}
+    lines = []
+    it = iter(submitted)
+    for st in steps:
+        if st == "submit":
+            ev, _ = next(it)
+            lines.append({"submit": idx[ev["id"]], "eph": eph[ev["id"]]})
+        else:
+            lines.append({st: True})
+    mv = drv.call({"op": "ann.run", "backend": backend, "steps": lines})
+    real_ann = [[idx[i], eph[i], bool(v)] for i, v in link.announced]
+    real_acc = [idx[ev["id"]] for ev, ok in submitted if ok]
+    if mv["announced"] != real_ann or mv["accepted"] != real_acc:
+        report.correspondence_break("storage glue of the notifier (%s add_event%s)" % (backend, " + WriterThread" if backend == "kv" else ""),
+                                    {"kind": "announce", "backend": backend, "schedule": schedule, "events": [e for e, _ in submitted],
+                                     "steps": steps},
+                                    {"announced": real_ann, "accepted": real_acc}, mv)
+    report.count("announce_model_ties")
+
+
 def _judge_announcements(report, backend, schedule, submitted, link):
     """every accepted event is announced exactly once, never a refused one, and at the instant of the announcement
     another worker can load it (else that worker drops the id: its subscribers never see the event)"""
@@ -328,7 +355,7 @@ def _judge_announcements(report, backend, schedule, submitted, link):
     report.count("announce_cases_" + backend)
 
 
-def announce_case_sql(report, rng, tag, evs=None):
+def announce_case_sql(report, drv, rng, tag, evs=None):
     import shutil
     import sqlite3
     from lib.hist import SQLStore
@@ -354,12 +381,13 @@ def announce_case_sql(report, rng, tag, evs=None):
             st.run(_yield(3))
             submitted.append((e, res["ok"]))
         _judge_announcements(report, "sql", "sequential:%s" % tag, submitted, link)
+        _model_tie(report, drv, "sql", "sequential:%s" % tag, submitted, link, ["submit"] * len(submitted))
     finally:
         st.close()
         shutil.rmtree(d, ignore_errors=True)
 
 
-def announce_case_kv(report, rng, tag, contended, evs=None):
+def announce_case_kv(report, drv, rng, tag, contended, evs=None):
     """the real writer thread; `contended` = another writer (a second worker process's writer thread, a bulk load) is inside
     a write transaction while the event is submitted"""
     import threading
@@ -394,19 +422,23 @@ def announce_case_kv(report, rng, tag, contended, evs=None):
                 event, changed = st.run(st.storage.add_event(dict(e)))
             except Exception:
                 changed = False
+            if not contended:
+                # the writer thread is let finish before the next submission (the order of announcements is then fixed)
+                st.run(st.storage.wait_for_writer())
             st.run(_yield(5))
             submitted.append((e, bool(changed)))
-        if not contended:
-            # without contention the announcement races with the writer thread: wait for the writer, judge only counts
-            st.run(st.storage.wait_for_writer())
-            link.announced = [(i, True if not (20000 <= [e for e in evs if e["id"] == i][0]["kind"] < 30000) else v)
-                              for i, v in link.announced]
-        else:
+        if contended:
             release.set()
             th.join()
             st.run(st.storage.wait_for_writer())
         st.run(_yield(5))
-        _judge_announcements(report, "kv", ("another-writer-holds-the-lock:%s" if contended else "uncontended:%s") % tag, submitted, link)
+        schedule = ("another-writer-holds-the-lock:%s" if contended else "writer-finishes-between-submissions:%s") % tag
+        _judge_announcements(report, "kv", schedule, submitted, link)
+        if contended:
+            steps = ["submit"] * len(submitted) + ["writerTake", "writerCommit"] * len(submitted)
+        else:
+            steps = ["submit", "writerTake", "writerCommit"] * len(submitted)
+        _model_tie(report, drv, "kv", schedule, submitted, link, steps)
     finally:
         try:
             st.writer.running = False
@@ -486,12 +518,14 @@ def run(report, tier, seed):
         report.property_failure("NotifyClient.notify wrote %r" % c.writer.writes, {"kind": "notify"}, None)
     report.case(("notify",), nontrivial=True)
     loop.close()
-    drv.close()
     # storage glue on both backends (their own event loops)
-    for k in range(4 if tier == "quick" else 40):
-        announce_case_sql(report, rng, k)
-        announce_case_kv(report, rng, k, contended=True)
-        announce_case_kv(report, rng, k, contended=False)
+    try:
+        for k in range(4 if tier == "quick" else 40):
+            announce_case_sql(report, drv, rng, k)
+            announce_case_kv(report, drv, rng, k, contended=True)
+            announce_case_kv(report, drv, rng, k, contended=False)
+    finally:
+        drv.close()
 
 
 def replay_one(report, drv, loop, r):
@@ -499,9 +533,9 @@ def replay_one(report, drv, loop, r):
         rng = random.Random(0)
         evs = r["events"]
         if r["backend"] == "sql":
-            announce_case_sql(report, rng, "replay", evs=evs)
+            announce_case_sql(report, drv, rng, "replay", evs=evs)
         else:
-            announce_case_kv(report, rng, "replay", contended=r["schedule"].startswith("another"), evs=evs)
+            announce_case_kv(report, drv, rng, "replay", contended=r["schedule"].startswith("another"), evs=evs)
         asyncio.set_event_loop(loop)
     elif r.get("kind") == "client" or "chunks" in r:
         chunks = [bytes.fromhex(c) for c in r["chunks"]]
